@@ -811,9 +811,55 @@ class Interp:
         return self.call(f, args, kwargs, fr, node=e)
 
     # ------------------------------------------------------------------ calls
+    def call_memoized(self, f, args, kwargs, fr, node):
+        """assumed contract of functools.lru_cache / functools.cache: the result of a *completed* earlier call
+        whose arguments compare equal (==, same hash) - which, without typed=True, may be a value of another kind
+        (1 == True == 1.0) or another bit pattern (0.0 == -0.0) - or else a fresh computation"""
+        inner = f.__wrapped__
+        self.ctx.effects.append(("memoized-call", getattr(inner, "__qualname__", "?"), self.where(node, fr)))
+        try:
+            typed = bool(f.cache_parameters().get("typed"))
+        except Exception:       # noqa: BLE001
+            typed = False
+        alias = [self.equal_alias(a, typed) for a in args]
+        if any(x is not y for x, y in zip(alias, args)):
+            try:
+                return self.call_function(inner, alias, kwargs)
+            except PyRaise:
+                pass            # a call that raised is not cached
+        return self.call_function(inner, args, kwargs)
+
+    def equal_alias(self, v, typed):
+        from . import opaque
+        ctx = self.ctx
+        if isinstance(v, SOpaque) and v.kind == "float":
+            if ctx.decide_free("memo_hit_with_equal_float"):
+                c = z3.Const(ctx.fresh("equal_float"), opaque.F)
+                ctx.assume(opaque.isfinite(c) == opaque.isfinite(v.t))      # e.g. -0.0 for 0.0: equal, other bits
+                return SOpaque(c, "float")
+            return v
+        if typed:
+            return v
+        if isinstance(v, SInt):
+            if ctx.decide_free("memo_hit_with_equal_float"):
+                c = z3.Const(ctx.fresh("float_equal_to_int"), opaque.F)
+                ctx.assume(opaque.isfinite(c))
+                return SOpaque(c, "float")
+            if ctx.decide_free("memo_hit_with_equal_bool") and ctx.decide(z3.Or(v.t == 0, v.t == 1)):
+                return SBool(v.t == 1)
+            return v
+        if isinstance(v, SBool):
+            if ctx.decide_free("memo_hit_with_equal_int"):
+                return SInt(z3.If(v.t, z3.IntVal(1), z3.IntVal(0)))
+            return v
+        return v
+
     def call(self, f, args, kwargs, fr, node=None):
         if isinstance(f, SymMethod):
             return f(*args, **kwargs)
+        if type(f).__name__ == "_lru_cache_wrapper" and (any(_has_sym(a) for a in args) or any(_has_sym(a) for a in kwargs.values())) \
+                and self.summaries(f) is None:
+            return self.call_memoized(f, args, kwargs, fr, node)
         model = None
         try:
             model = self.models.get(f)
